@@ -155,7 +155,7 @@ ClassNames == {"int", "str", "object", "A", "B", "P", "list", "dict", "tuple", "
                "TimeoutError", "Warning", "builtins.TimeoutError", "builtins.Warning",
                \* classes of the two-module world of AnnotationContext.tla: "<module>.<class>" (never leaves)
                "A.K", "B.K", "A.Solo"}
-\* what a name lookup that finds nothing yields (annotations.py:169 handle_undefined_name / :944): an
+\* what a name lookup that finds nothing yields (annotations.py:169 handle_undefined_name / :962): an
 \* AnyValue whose source says whether errors were suppressed; only AnnotationContext.tla writes these ids
 UndefinedIds == {"undefined:error", "undefined:inference"}
 BareNames == {"List", "Dict", "Tuple", "Type", "Callable", "Sequence",
@@ -379,7 +379,7 @@ ImplRt(r, au) ==
       [] r.k = "special" /\ r.id \in {"Final", "ClassVar"} -> AnyV("incomplete_annotation")   \* :497
       [] r.k = "fwd" -> ImplFwd(r.args[1], FALSE)                                             \* :499 (allow_unpack is not forwarded)
       [] r.k = "ellipsis" -> AnyV("explicit")                                                 \* :518
-      [] r.k = "undefined" -> AnyV(r.id)                                                      \* :693 an AnyValue passes through _type_from_value
+      [] r.k = "undefined" -> AnyV(r.id)                                                      \* :726 an AnyValue passes through _type_from_value
       [] OTHER -> AnyV("error")                                                               \* :545 "Invalid type annotation"
 
 \* annotations.py:1141 _value_of_origin_args
